@@ -244,6 +244,8 @@ func specParsed(p *FrameParser) bool {
 //@ ensures[C09.rap.class]    ret0 != nil && !chain(ret0, *common.ReceiveProbeNoPktError) && !chain(ret0, *common.BadPacketError) ==> ioFail
 //@ ensures[C09.rap.only]     ret0 != nil ==> onlyRepoErrs(ret0, *common.ReceiveProbeNoPktError, *common.BadPacketError)
 //@ ensures[C09.rap.io]       ioFail == old(ioFail) || ret0 != nil
+// exactly the bytes just read are parsed — not the whole reusable buffer, whose tail still holds earlier packets
+//@ ensures[C09+C01.rap.exact] ncalls(Source.Read) == old(ncalls(Source.Read)) + 1 && lastres(Source.Read, 1) == nil && lastres(Source.Read, 0) > 0 ==> ncalls("(*FrameParser).Parse") == old(ncalls("(*FrameParser).Parse")) + 1 && len(lastarg("(*FrameParser).Parse", buffer)) == lastres(Source.Read, 0) && suffixOf(buffer[:lastres(Source.Read, 0)], lastarg("(*FrameParser).Parse", buffer)) && suffixOf(lastarg("(*FrameParser).Parse", buffer), buffer[:lastres(Source.Read, 0)])
 //@ ensures[C05.rap.clock]    now() >= old(now())
 // a read that hit the read deadline stays recognisable as such (errors.Is(..., os.ErrDeadlineExceeded)): callers that
 // wait under one absolute deadline (the SACK handshake) rely on it to stop
